@@ -141,6 +141,8 @@ impl IdMap {
         mut labels: Vec<LabelId>,
         internal_id: InternalNodeId,
     ) -> Result<()> {
+        #[cfg(luqing_studio_nervusdb_verif)]
+        let _verif_owner = nervusdb_api::verif_hooks::owner_scope("i2e");
         let expected = self.next_internal_id();
         if internal_id != expected {
             return Err(Error::WalProtocol("non-dense internal id"));
@@ -206,6 +208,8 @@ impl IdMap {
 
     /// Add a label to an existing node.
     fn relocate_i2e(&mut self, pager: &mut Pager, old_start: PageId, used: u64) -> Result<PageId> {
+        #[cfg(luqing_studio_nervusdb_verif)]
+        let _verif_owner = nervusdb_api::verif_hooks::owner_scope("i2e");
         let new_start = PageId::new(pager.next_page_id());
         for i in 0..=used {
             pager.ensure_allocated(PageId::new(new_start.as_u64() + i))?;
@@ -227,6 +231,8 @@ impl IdMap {
     /// Persists a node tombstone in the node table (used when compaction drops the runs
     /// that carried the tombstone).
     pub fn apply_tombstone(&mut self, pager: &mut Pager, internal_id: InternalNodeId) -> Result<()> {
+        #[cfg(luqing_studio_nervusdb_verif)]
+        let _verif_owner = nervusdb_api::verif_hooks::owner_scope("i2e");
         let Some(start) = self.i2e_start else {
             return Err(Error::WalProtocol("node not found"));
         };
